@@ -1,4 +1,5 @@
 import NumbatModel.Props.C03
+import NumbatModel.Lemmas.QtyCanon
 set_option linter.unusedSectionVars false
 /-!
 Turning a regenerated unit table (`Gen/UnitTable.lean`: rows of plain data) into a `Table α`, and the
@@ -72,6 +73,17 @@ theorem wf_of_check (decode : Nat → α) (names : List String) (rows : List Raw
   obtain ⟨g, hg, rfl⟩ := hf
   have := wfCheckFrom_get rows 0 id r h hr g hg
   simpa [rawFactor] using this
+
+theorem names_distinct_of_nodup (decode : Nat → α) (names : List String) (rows : List RawRow)
+    (h : names.Nodup) : NamesDistinct (toTable decode names rows) := by
+  intro i j di dj hi hj hname
+  obtain ⟨ni, ri, hni, _, rfl⟩ := toTable_get decode names rows i di hi
+  obtain ⟨nj, rj, hnj, _, rfl⟩ := toTable_get decode names rows j dj hj
+  simp only [rowToDef] at hname
+  subst hname
+  obtain ⟨hil, hie⟩ := List.getElem?_eq_some_iff.mp hni
+  obtain ⟨hjl, hje⟩ := List.getElem?_eq_some_iff.mp hnj
+  exact (List.getElem_inj h).mp (hie.trans hje.symm)
 
 variable [Lean.Grind.Field α] [L : LawfulNum α]
 
